@@ -337,6 +337,34 @@ func (x *Exec) Start() (*State, []Val) {
 		for _, r := range x.Spec.Requires {
 			x.assume(st, env.evalBool(r.E))
 		}
+		if sp := x.Spec.Attrs["split"]; sp != "" {
+			// finite case split declared by the contract: this run covers one case
+			fields := strings.Fields(sp)
+			ex, err := contract.ParseExpr(fields[0])
+			if err != nil {
+				x.fail("attr split: %v", err)
+			}
+			if x.SplitIdx < 0 || x.SplitIdx >= len(fields)-1 {
+				x.fail("attr split: case index out of range")
+			}
+			v, err2 := contract.ParseExpr(fields[1+x.SplitIdx])
+			if err2 != nil {
+				x.fail("attr split: %v", err2)
+			}
+			if x.SplitIdx == 0 {
+				var alts []*T
+				for _, f := range fields[1:] {
+					fv, err := contract.ParseExpr(f)
+					if err != nil {
+						x.fail("attr split: %v", err)
+					}
+					alts = append(alts, term.Eq(env.evalInt(ex), env.evalInt(fv)))
+				}
+				x.oblige(st, "split", "exhaustive", term.Or(alts...), token.NoPos)
+			}
+			x.assume(st, term.Eq(env.evalInt(ex), env.evalInt(v)))
+			x.Label = fmt.Sprintf("[%s=%s]", fields[0], fields[1+x.SplitIdx])
+		}
 		x.mods = env.evalMods(x.Spec, true)
 		x.entry = st.clone()
 		x.cover(st, "pre", term.True)
